@@ -21,8 +21,8 @@ def define(M):
       "            elif category == \"component\":\n                ligatures.add(glyphName)")
     # vcaret_ anchors contribute x instead of y
     M("C18", "vcaret_uses_x", G,
-      "                    glyphCarets.add(self._getAnchor(glyphName, anchor.name)[1])",
-      "                    glyphCarets.add(self._getAnchor(glyphName, anchor.name)[0])")
+      "                        self._getAnchor(glyphName, anchor.name, anchor=anchor)[1]",
+      "                        self._getAnchor(glyphName, anchor.name, anchor=anchor)[0]")
     # caret coordinates truncated instead of rounded
     M("C18", "caret_int_instead_of_otround", G,
       "                    carets[glyphName] = [otRound(c) for c in sorted(glyphCarets)]",
